@@ -15,6 +15,7 @@ import (
 	"strings"
 
 	"verifharness/drive"
+	"verifharness/facts"
 	"verifharness/trace"
 	_ "verifharness/world"
 )
@@ -25,6 +26,25 @@ func main() {
 		os.Exit(2)
 	}
 	cmd, prop := os.Args[1], os.Args[2]
+	if cmd == "facts" {
+		fs := flag.NewFlagSet("facts", flag.ExitOnError)
+		repo := fs.String("repo", "/repo", "repository root")
+		out := fs.String("out", "Facts.lean", "Lean output")
+		js := fs.String("json", "", "json output")
+		_ = fs.Parse(os.Args[3:])
+		f := facts.Extract(*repo)
+		if err := facts.Write(f, *out, *js); err != nil {
+			fmt.Fprintln(os.Stderr, err)
+			os.Exit(2)
+		}
+		if len(f.Errors) > 0 {
+			for _, e := range f.Errors {
+				fmt.Println("FACT-MISSING:", e)
+			}
+			os.Exit(1)
+		}
+		return
+	}
 	p, ok := drive.Registry[prop]
 	if !ok {
 		fmt.Fprintln(os.Stderr, "unknown property", prop)
